@@ -234,7 +234,7 @@ def run_universe(tier):
             ("lin3", 500, None), ("lin2t", 10 ** 9, "tan"), ("lin2p", 800, "tan"), ("lin3p", 1200, "tan"), ("bd3r", 1500, "tan"),
             ("nrm2", 1500, "nrm"), ("geo", 1200, "geo"),
             # the randomly drawn instances are cheap and catch rare numerical paths: all of them, every time
-            ("rndt", 10 ** 9, "tan"), ("rndg", 10 ** 9, "geo"), ("rndn", 10 ** 9, "nrm"))
+            ("rndt", 10 ** 9, "tan"), ("rndc", 10 ** 9, "tan"), ("rndg", 10 ** 9, "geo"), ("rndn", 10 ** 9, "nrm"))
     for uid, kq, only in plan:
         U = universe(uid)
         sizes[uid] = len(U)
